@@ -46,7 +46,6 @@ SPEC = {
         "files stay at least 64 KiB below the 4 GiB cap implied by the format's uint32 offsets",
         "metadata is at most 512 bytes, has no NUL byte and consists of \"key: value\" lines (what rotate1 writes)",
         "counter names of 1..4096 bytes get a record; the empty name and longer ones are refused (modelled and proved harmless)",
-        "encode/parse round trip: no counter name is the expansion (DecodeStack) of another counter's name, see C06",
     ],
     "trusted_base": [],
     "own_objects": ["theories/Props/C10.vo", "theories/Proofs/LayoutArith.vo", "theories/Proofs/LayoutRead.vo",
